@@ -365,7 +365,12 @@ func c13One(c *fw.Ctx, cs c13Case) {
 	c.AddTraces(1)
 	ctx, cancel := context.WithTimeout(context.Background(), 5*time.Second)
 	defer cancel()
-	o := hsDial(ctx, "ws://example.com/p?q=1", websocket.DialOptions{Subprotocols: cs.Requested, CompressionMode: hsMode(cs.Mode)}, cs.Resp, nil)
+	givenSubs := append([]string(nil), cs.Requested...) // the library gets a copy: the case data stays what the oracle reads
+	o := hsDial(ctx, "ws://example.com/p?q=1", websocket.DialOptions{Subprotocols: givenSubs, CompressionMode: hsMode(cs.Mode)}, cs.Resp, nil)
+	if strings.Join(givenSubs, "\x00") != strings.Join(cs.Requested, "\x00") {
+		c.Violate("C13/caller-options-modified", fmt.Sprintf("%+v: DialOptions.Subprotocols was %q before Dial and is %q afterwards", cs, cs.Requested, givenSubs), cs)
+		return
+	}
 	if o.conn != nil {
 		defer o.conn.CloseNow()
 	}
@@ -595,7 +600,7 @@ func c13ReqOne(c *fw.Ctx, cs c13ReqCase) {
 		want[http.CanonicalHeaderKey(kv[0])] = append(want[http.CanonicalHeaderKey(kv[0])], kv[1])
 	}
 	o := hsDial(ctx, cs.Scheme+"://example.com/p?q=1",
-		websocket.DialOptions{Subprotocols: cs.Subprotocols, HTTPHeader: hdr, Host: cs.Host, CompressionMode: hsMode(cs.Mode)},
+		websocket.DialOptions{Subprotocols: append([]string(nil), cs.Subprotocols...), HTTPHeader: hdr, Host: cs.Host, CompressionMode: hsMode(cs.Mode)},
 		validScript(""), nil)
 	if o.conn != nil {
 		defer o.conn.CloseNow()
